@@ -132,5 +132,5 @@ pub fn property(tier: Tier) -> Property {
             exhaustive: false,
         }));
     }
-    Property { id: "C13", stages, assumptions: vec!["a panic while using an old handle is a violation of this property".into()] }
+    Property { id: "C13", scale: tier.pick(5, 2), stages, assumptions: vec!["a panic while using an old handle is a violation of this property".into()] }
 }
